@@ -318,6 +318,10 @@ pub fn case(ctx: &Ctx, shard: usize, index: u64, rep: &mut Report) {
     {
         let lead = gen_intra(&mut rng, &cfg).encode();
         let mut all = lead.clone();
+        // between the two pictures the caller may read a few bytes of its own through the same reader (a
+        // container's length field, say) - bits consumed since the last commit when the failing call begins
+        let prefix: Vec<u8> = if rng.chance(1, 3) { (0..1 + rng.below(3)).map(|_| rng.byte()).collect() } else { vec![] };
+        all.extend_from_slice(&prefix);
         all.extend_from_slice(&x);
         // what follows the failing input: arbitrary bytes, or the start of another picture
         let follow_picture = rng.chance(1, 2);
@@ -332,6 +336,9 @@ pub fn case(ctx: &Ctx, shard: usize, index: u64, rep: &mut Report) {
             let o1 = crate::sut::outcome_of(catch(|| d.st.decode_next_picture(&mut rd)));
             if o1 != Outcome::Ok {
                 return None;
+            }
+            for _ in 0..prefix.len() {
+                let _ = rd.read_u8();
             }
             let p0 = abs_pos(&rd, &delivered);
             let snap0 = d.snapshot();
@@ -359,6 +366,9 @@ pub fn case(ctx: &Ctx, shard: usize, index: u64, rep: &mut Report) {
                         return;
                     }
                     rep.count("shared_reader_position_checks");
+                    if !prefix.is_empty() {
+                        rep.count("shared_reader_position_checks_after_caller_reads");
+                    }
                     if follow_picture {
                         rep.count("shared_reader_position_checks_before_another_picture");
                         rep.count(&format!("shared_reader_before_picture:{}:{}", if sorenson { "sorenson" } else { "standard" }, fault.depth()));
@@ -652,7 +662,7 @@ pub fn run(ctx: &Ctx) -> (Report, String) {
     if ctx.is_main() {
         let m = ctx.scale_pct;
         rep.require("continuation_steps_compared", if ctx.tier == Tier::Thorough { 1_500_000 } else { 80_000 } * m / 100);
-        for k in ["depth=header", "depth=truncation", "depth=macroblock-header", "depth=block-data", "depth=prediction", "shared_reader_position_checks", "split:retried-ok", "split:inside-picture-header:failed-and-retried", "split:inside-block-data:failed-and-retried", "split_pictures", "shared_reader_position_checks_before_another_picture", "shared_reader_before_picture:standard:prediction", "shared_reader_before_picture:sorenson:prediction", "prediction_failures_ending_early", "failing_input_repeats_the_temporal_reference", "valid_but_unusual_inputs", "long_histories", "calls_repeated_after_transient_source_error"] {
+        for k in ["depth=header", "depth=truncation", "depth=macroblock-header", "depth=block-data", "depth=prediction", "shared_reader_position_checks", "split:retried-ok", "split:inside-picture-header:failed-and-retried", "split:inside-block-data:failed-and-retried", "split_pictures", "shared_reader_position_checks_before_another_picture", "shared_reader_position_checks_after_caller_reads", "shared_reader_before_picture:standard:prediction", "shared_reader_before_picture:sorenson:prediction", "prediction_failures_ending_early", "failing_input_repeats_the_temporal_reference", "valid_but_unusual_inputs", "long_histories", "calls_repeated_after_transient_source_error"] {
             rep.require(k, 100 * m / 100);
         }
     }
